@@ -1,8 +1,10 @@
 """C15 — non-blocking calls never block; poll descriptors mirror readiness (all protocols)."""
+import json
 from .. import generic
+from . import c15_pollable
 
 PROP = "C15"
-MODULES = ["NngModel.Props.C15"]
+MODULES = ["NngModel.Props.C15", "NngModel.Props.C15Pollable"]
 
 
 # per-protocol halves of the property: "flag = a non-blocking op would succeed" and "non-blocking
@@ -21,6 +23,9 @@ EXTRA = {
 
 
 def run(tier, seed, replay=None):
+    if replay and json.load(open(replay)).get("sub") == c15_pollable.SUB:
+        return c15_pollable.run(tier, seed, replay)
     return generic.run_generic(PROP, MODULES, "poll-judge", tier, seed, replay, generic.augment_c15, 3000, 40000,
                                "event histories of every modelled protocol (providers in vlib/protos.py) with `poll` followed by a socket-level "
-                               "non-blocking receive or send inserted at random quiescent points; judged by Spec/Generic.lean pollStep", extra=EXTRA)
+                               "non-blocking receive or send inserted at random quiescent points; judged by Spec/Generic.lean pollStep; " + c15_pollable.RULE,
+                               extra=EXTRA, parts=[("pollable_part", c15_pollable.run_part)])
